@@ -97,11 +97,15 @@ def apply_edit(pkg: M.Package, rng: Rng, kind: str):
         n = r.fields.pop(rng.randrange(len(r.fields)))[0]
         return "remove_field %s.%s" % (r.name, n)
     if kind == "widen_field":
-        cands = [(r, i) for r in recs for i, (_, t) in enumerate(r.fields) if isinstance(t, Prim) and t.name in WIDEN]
+        cands = [(r, i) for r in recs for i, (_, t) in enumerate(r.fields)
+                 if (isinstance(t, Prim) and t.name in WIDEN) or (isinstance(t, Opt) and isinstance(t.inner, Prim) and t.inner.name in WIDEN)]
         if not cands:
             return None
         r, i = rng.choice(cands)
         n, t = r.fields[i]
+        if isinstance(t, Opt):
+            r.fields[i] = (n, Opt(Prim(WIDEN[t.inner.name])))
+            return "widen_field %s.%s %s?->%s?" % (r.name, n, t.inner.name, WIDEN[t.inner.name])
         r.fields[i] = (n, Prim(WIDEN[t.name]))
         return "widen_field %s.%s %s->%s" % (r.name, n, t.name, WIDEN[t.name])
     if kind == "widen_vector_field":
@@ -121,6 +125,8 @@ def apply_edit(pkg: M.Package, rng: Rng, kind: str):
                     cands.append((p, i, Prim(WIDEN[t.name])))
                 elif isinstance(t, Vec) and isinstance(t.inner, Prim) and t.inner.name in WIDEN:
                     cands.append((p, i, Vec(Prim(WIDEN[t.inner.name]), t.length)))
+                elif isinstance(t, Opt) and isinstance(t.inner, Prim) and t.inner.name in WIDEN:
+                    cands.append((p, i, Opt(Prim(WIDEN[t.inner.name]))))
         if not cands:
             return None
         p, i, nt = rng.choice(cands)
